@@ -22,6 +22,11 @@
    exchanges it finishes them and closes; h2 the same per stream; a handler error ends an h1
    connection and only resets the stream on h2; an HTTP/2-only server that has not yet seen the
    complete client preface only notes close_pending and stays open ([h2silent], known finding D18).
+   The signal may also resolve INSIDE the accept loop (EMakeSignal: the make-service future of the
+   connection being admitted resolves it); GracefulShutdown::poll polls it at the top of every
+   iteration, so the connection in State::Making is still spawned and nothing after it is accepted.
+   The server-side duplex buffer cap and the buffer size a client asks for (incl. 0) are abstracted
+   away: the harness varies them, the observable behaviour must not depend on them.
    Environment rules shared with the harness: connection id = order of the EConnect events; actions
    on a missing / gone / closed connection do nothing; HTTP/1 clients have one request at a time; once
    the watch is closed no new request is begun; every action on a connection settles first.
